@@ -32,11 +32,12 @@ import numpy as np
 from vf import core
 from vf.core import CorrResult, Disagreement, Failure, coq_float, coq_list
 from translator import steady as tr
+from translator import steadyplan as trp
 
 ID = "C05"
 PROPS = "props/C05.v"
-GENERATED = [tr.OUT]
-CASE_DEPS = ["lib/CaseUtil.vo", "model/Steady.vo"]
+GENERATED = [tr.OUT, trp.OUT]
+CASE_DEPS = ["lib/CaseUtil.vo", "model/Steady.vo", "model/SteadyPlan.vo"]
 ALLOWED_AXIOMS = {
     "sig_forall_dec", "sig_not_dec", "functional_extensionality_dep",
     "ClassicalDedekindReals.sig_forall_dec", "ClassicalDedekindReals.sig_not_dec",
@@ -86,6 +87,7 @@ MANIFEST = {
 
 def translate(ctx):
     tr.run()
+    trp.run()
 
 
 # =====================================================================================================
